@@ -311,6 +311,60 @@ def offset_message(target, late):
             "maxSize": 0, "model": True}
 
 
+def _fillers(total):
+    """root-owned TXT records whose encodings add up to exactly `total` bytes (each is 12 + n bytes, n <= 250)"""
+    out = []
+    while total > 0:
+        size = min(262, total)
+        if 0 < total - size < 12:
+            size -= 12
+        assert size >= 12, total
+        out.append({"n": [], "t": 16, "c": 1, "ttl": 1, "d": [{"l": [hx(b"x" * (size - 12))]}]})
+        total -= size
+    return out
+
+
+def straddle_message(start, labels, model=False):
+    """a multi-label owner name written at message offset `start` (around 0x4000, so that some of its suffixes
+    lie below and some at or beyond the 14-bit pointer limit), followed by records whose names reuse EVERY suffix
+    of it (as owner, as owner with one more label, and inside the rdata)"""
+    hdr = {"id": 9, "answer": 1, "opCode": 0, "auth": 0, "trunc": 0, "recDes": 1, "recAv": 1, "authenticData": 0,
+           "checkingDisabled": 0, "rCode": 0}
+    ar = [{"n": labels, "t": 1, "c": 1, "ttl": 5, "d": [{"b": "0a000001"}]}]
+    for i in range(len(labels) - 1, 0, -1):
+        suf = labels[i:]
+        ar.append({"n": suf, "t": 1, "c": 1, "ttl": 6, "d": [{"b": "0a000002"}]})
+        ar.append({"n": [hx(b"w%d" % i)] + suf, "t": 15, "c": 1, "ttl": 7, "d": [{"u": i}, {"n": suf}]})
+    ar.append({"n": labels, "t": 2, "c": 1, "ttl": 8, "d": [{"n": [hx(b"ns")] + labels}]})
+    c = {"kind": "msg", "hdr": hdr, "q": [], "an": _fillers(start - 12), "ns": [], "ar": ar, "maxSize": 0}
+    if model:
+        c["model"] = True
+    return c
+
+
+def straddle_family(rng, n_names, per_boundary=(-1, 0, 1)):
+    """for each name: placements that put offset 0x4000 just before / at / just after the start of every label,
+    in the middle of the first label, and a few random ones in 0x4000 +- 150"""
+    out = []
+    for _ in range(n_names):
+        k = rng.choice([3, 4, 5])
+        labels = [hx(bytes([97 + j]) * rng.choice([1, 2, 7, 20, 37, 63][: 6 if j else 5])) for j in range(k)]
+        offs, o = [], 0
+        for l in labels:
+            offs.append(o)
+            o += len(l) // 2 + 1
+        starts = set()
+        for o_i in offs:
+            for dlt in per_boundary:
+                starts.add(0x4000 - o_i + dlt)
+        starts.add(0x4000 - (len(labels[0]) // 4 + 1))
+        for _ in range(3):
+            starts.add(0x4000 + rng.randrange(-150, 151))
+        for st in sorted(starts):
+            out.append(straddle_message(st, labels))
+    return out
+
+
 def corpus():
     import random
     rng = random.Random(32)
@@ -326,6 +380,11 @@ def corpus():
         cs.append(c)
     for target in (16382, 16383, 16384, 16385):                # the 14-bit pointer boundary, exactly
         cs.append(offset_message(target, [hx(b"late"), hx(b"name"), hx(b"test")]))
+    # a name straddling the 14-bit limit whose suffixes are reused later (seeded mutation C32-A)
+    strad = [hx(b"a-rather-long-first-label"), hx(b"tail"), hx(b"zone"), hx(b"example")]
+    cs.append(straddle_message(0x4000 - 10, strad, model=True))     # first label straddles: all suffixes beyond
+    cs.append(straddle_message(0x4000 - 27, strad, model=True))     # second label starts at 0x3fff
+    cs.append(straddle_message(0x4000 - 31, strad))                 # third label starts exactly at 0x4000
     cs.append(big_message(rng, 70, [hx(b"late"), hx(b"name"), hx(b"test")]))     # first seen at offset > 16383
     cs.append(big_message(rng, 60, [hx(b"late"), hx(b"name"), hx(b"test")]))     # first seen below 16384
     p = os.path.join(VERIF, "corpus/C32/seeds.json")
@@ -374,6 +433,7 @@ def gen(rng, tier):
                                 for f in W.RFC_SCHEMA[t].split()]
         c["ns"], c["ar"] = [], []
         cases.append(c)
+    cases += straddle_family(rng, 1 if tier == "quick" else 12)
     if tier == "thorough":
         for k in (64, 65, 66, 67, 68):
             cases.append(big_message(rng, k, gen_name(rng) or [hx(b"z")]))
